@@ -1,5 +1,6 @@
 import Np.Proofs.Dispatch
 import Np.Proofs.ConstFns
+import Np.Proofs.ElemFns
 import Np.Model.Patterns
 import Np.Proofs.ConstPatterns
 import Np.Model.Signatures
@@ -192,5 +193,37 @@ theorem nonzero_lists_nonzeros (shape : List Nat) (xs : List Int) (hxs : xs.leng
   obtain ⟨h1, -, -, h4, h5, h6⟩ := nonzeroF_spec shape xs hxs
   exact ⟨h1, h4, h5, h6⟩
 end constfns
+
+/-! ### numpy's element-wise functions with broadcasting on value arrays (`Np/Model/ElemFns.lean`) -/
+section elemfns
+open Np.Shape Np.ShapeFns Np.ElemFns Np.ConstFns
+
+/-- every binary element-wise function: the shapes broadcast like numpy's, and the entry at output multi-index `j` is
+`f` of the two operands at their broadcast positions -/
+theorem elementwise_broadcast {β : Type} {f : Int → Int → β} {sa sb out : List Nat} {xs ys : List Int} {r : List β}
+    (h : binop f sa sb xs ys = some (out, r)) {j : List Nat} (hj : Valid out j) :
+    bshape sa sb = some out ∧ r.length = size out ∧
+    r[ravel out j]? = some (f (xs.getD (ravel sa (bmulti sa j)) 0) (ys.getD (ravel sb (bmulti sb j)) 0)) ∧
+    Valid sa (bmulti sa j) ∧ ravel sa (bmulti sa j) < xs.length ∧
+    Valid sb (bmulti sb j) ∧ ravel sb (bmulti sb j) < ys.length := binop_spec h hj
+
+/-- comparisons of value arrays: at every position exactly one of `less`, `equal`, `greater` holds -/
+theorem comparisons_trichotomy {sa sb out : List Nat} {xs ys : List Int} {l : List Bool}
+    (hl : lessF sa sb xs ys = some (out, l)) :
+    ∃ e g, equalF sa sb xs ys = some (out, e) ∧ greaterF sa sb xs ys = some (out, g) ∧
+      ∀ i, i < size out → ∃ x y z, l[i]? = some x ∧ e[i]? = some y ∧ g[i]? = some z ∧
+        ((x = true ∧ y = false ∧ z = false) ∨ (x = false ∧ y = true ∧ z = false) ∨
+          (x = false ∧ y = false ∧ z = true)) := compare_trichotomy hl
+
+/-- `floor_divide` and `remainder` with broadcasting: `a = b·q + r` with the divisor's sign on `r`; a zero divisor
+gives 0 for both (numpy's integer semantics) -/
+theorem floor_divide_remainder_broadcast {sa sb out : List Nat} {xs ys q : List Int}
+    (hq : floorDivideF sa sb xs ys = some (out, q)) :
+    ∃ m, remainderF sa sb xs ys = some (out, m) ∧ ∀ j, Valid out j → ∃ qv mv a b,
+      a = xs.getD (ravel sa (bmulti sa j)) 0 ∧ b = ys.getD (ravel sb (bmulti sb j)) 0 ∧
+      q[ravel out j]? = some qv ∧ m[ravel out j]? = some mv ∧
+      (b ≠ 0 → a = b * qv + mv ∧ ((0 ≤ mv ∧ mv < b) ∨ (b < mv ∧ mv ≤ 0))) ∧
+      (b = 0 → qv = 0 ∧ mv = 0) := floorDivide_remainder_spec hq
+end elemfns
 
 end Np.Props.C11
